@@ -201,17 +201,27 @@ pub struct ProgressCase {
     pub kib: u16,
 }
 
-fn progress_case() -> impl Strategy<Value = ProgressCase> {
-    let stall = prop_oneof![
-        1 => Just(Fault::Stall),
-        2 => Just(Fault::StallAfterHeaders),
-        2 => Just(Fault::StallMidBody),
-        1 => Just(Fault::WedgeReading),
-        1 => Just(Fault::WedgeSilent),
-    ];
-    (wires(), any::<bool>(), subsets(), 0u8..3, stall, 1u8..=3, prop_oneof![3 => 1u16..=8, 1 => 100u16..=700]).prop_map(
-        |(wire, gzip, subset, victim, stall, later_events, kib)| ProgressCase { wire, gzip, subset, victim, stall, later_events, kib },
-    )
+/// `fixed`: the generator instance's own (wire, stall kind) stratum — with 48 cases in the quick tier the
+/// required classes are reached by construction, not by luck.
+fn progress_case(fixed: (Option<Wire>, Option<Fault>)) -> BoxedStrategy<ProgressCase> {
+    let stall = match fixed.1 {
+        Some(f) => Just(f).boxed(),
+        None => prop_oneof![
+            Just(Fault::Stall),
+            Just(Fault::StallAfterHeaders),
+            Just(Fault::StallMidBody),
+            Just(Fault::WedgeReading),
+            Just(Fault::WedgeSilent),
+        ]
+        .boxed(),
+    };
+    let wire = match fixed.0 {
+        Some(w) => Just(w).boxed(),
+        None => wires().boxed(),
+    };
+    (wire, any::<bool>(), subsets(), 0u8..3, stall, 1u8..=3, prop_oneof![3 => 1u16..=8, 1 => 100u16..=700])
+        .prop_map(|(wire, gzip, subset, victim, stall, later_events, kib)| ProgressCase { wire, gzip, subset, victim, stall, later_events, kib })
+        .boxed()
 }
 
 pub fn check_c08(sc: &ProgressCase, cx: &mut Cx) -> Result<Result<(), String>, vcore::Fail> {
@@ -311,18 +321,28 @@ pub fn check_c08(sc: &ProgressCase, cx: &mut Cx) -> Result<Result<(), String>, v
 /// Registers the OTLP clause of C08 (`otlp-e2e-progress-<n>`): call from the c08 binary's session body.
 pub fn register_c08(s: &Session) {
     for k in ["grpc-stall-after-headers", "grpc-stall-mid-body", "grpc-wedged-connection", "stall"] {
-        s.require(&format!("otlp-stall:{k}"), if s.quick() { 2 } else { 60 });
+        s.require(&format!("otlp-stall:{k}"), if s.quick() { 5 } else { 250 });
     }
     for w in ["otlp:http-json", "otlp:http-protobuf", "otlp:grpc"] {
-        s.require(w, if s.quick() { 6 } else { 300 });
+        s.require(w, if s.quick() { 5 } else { 250 });
     }
     let cases = s.n(6, 300);
+    let strata: [(Option<Wire>, Option<Fault>); 8] = [
+        (Some(Wire::Grpc), Some(Fault::StallAfterHeaders)),
+        (Some(Wire::Grpc), Some(Fault::StallMidBody)),
+        (Some(Wire::Grpc), Some(Fault::WedgeReading)),
+        (Some(Wire::Grpc), Some(Fault::WedgeSilent)),
+        (Some(Wire::Grpc), Some(Fault::Stall)),
+        (Some(Wire::HttpJson), None),
+        (Some(Wire::HttpProto), None),
+        (None, None),
+    ];
     // every case costs about one scaled request timeout (1.5 s) of sleeping: run instances side by side
     std::thread::scope(|scope| {
-        for inst in 0..8 {
+        for (inst, fixed) in strata.into_iter().enumerate() {
             scope.spawn(move || {
                 let guard = ShrinkGuard::new(12, 45);
-                s.gen(&format!("otlp-e2e-progress-{inst}"), cases, progress_case, |c, cx| {
+                s.gen(&format!("otlp-e2e-progress-{inst}"), cases, move || progress_case(fixed), |c, cx| {
                     guard.run(s, cx, |cx| res(check_c08(c, cx), |p| s.inconclusive(format!("harness: {p}"))))
                 });
             });
